@@ -20,7 +20,7 @@ FUNCTIONS = ["pedal.source.source.verify/_ensure_error_position", "pedal.source.
              "pedal.utilities.exceptions.ExpandedTraceback.build_traceback/_fix_frame_line/format_traceback", "pedal.core.submission.Submission.set_line_offset"]
 BOUNDS = {"quick": "exception class x {1,3}-line file x section offset {0,2}; offsets <= 3, end_offset <= 4, lines within the file",
           "thorough": "exception class x {1,2,3}-line file x section offset {0,1,2}"}
-OUTSIDE = ["agreement of CPython's parser with the language (there is no second parser)", "error shapes not produced by the harvest corpus", "real source texts beyond the 38-entry menu of C12.real_sources",
+OUTSIDE = ["agreement of CPython's parser with the language (there is no second parser)", "error shapes not produced by the harvest corpus", "real source texts beyond the 44-entry menu of C12.real_sources",
            "files longer than 3 lines / offsets beyond the bounds (values are formatted into the message, which realises them)"]
 ASSUMPTIONS = ["parser stub: ast.parse in pedal.source.source either delegates to the real parser or raises an error object within harvested shapes",
                "FeedbackFieldWrapper copy-safety shim"]
@@ -81,7 +81,8 @@ def obligations(tier):
             for o in offs:
                 obs.append(Ob("C12.rejects", F, "rejects", 400, part="%d,%d,%d" % (k, n, o), what=w, env=env))
     obs.append(Ob("C12.accepts", F, "accepts", 120, env=env, what="parser accepts: no syntax feedback, stored tree is the parser's object; blank text -> exactly blank_source"))
-    obs.append(Ob("C12.refuses", F, "refuses", 200, env=env, what="the parser refuses the text without a SyntaxError (UnicodeEncodeError at a symbolic position, RecursionError, ValueError): verify() returns False without raising, one triggered syntax feedback on a line of the file, empty tree"))
-    obs.append(Ob("C12.real_sources", F, "real_sources", 200, env=env, what="38 concrete sources (incl. lone surrogates and 3000-deep expressions) through the REAL parser (stub bypassed; menu enumerated by the solver, bodies untraced): verify agrees with ast.parse on accept/reject, line (+ offset) and stored tree; never raises"))
+    obs.append(Ob("C12.refuses", F, "refuses", 200, env=env, what="the parser refuses the text without a SyntaxError (UnicodeEncodeError at a symbolic position, RecursionError, ValueError, MemoryError): verify() returns False without raising, one triggered syntax feedback on a line of the file, empty tree"))
+    obs.append(Ob("C12.real_sources", F, "real_sources", 200, env=env, what="44 concrete sources (incl. lone surrogates, 3000-deep expressions, a 100000-fold unary minus, CR-only texts) through the REAL parser (stub bypassed; menu enumerated by the solver, bodies untraced): verify agrees with ast.parse on accept/reject, line (+ offset) and stored tree; never raises"))
+    obs.append(Ob("C12.explicit_file", F, "explicit_file", 200, env=env, what="the same 44 texts through verify(code, filename='other.py', report=r) with a different valid main file in r: never raises, same verdict / line / tree as ast.parse"))
     obs.append(Ob("C12.rejects_reach", F, "rejects_reach", 60, expect="refute", env=env, what="twin: a syntax feedback on a shifted line is produced"))
     return obs
